@@ -28,7 +28,11 @@ out.append("| seed | breaks | change | detected by (witness classes) | first run
 for sid in sorted(catch):
     c = catch[sid]
     det = "; ".join(f"**{p}**: {w}" for p, w in c["caught_by"].items()).replace("|", "\\|")
-    out.append(f"| {sid} | {c['breaks']} | {c['what'].replace('|', chr(92)+'|')} | {det} | {c['first_run']} | {c.get('strengthened', '')} |")
+    note = c.get('strengthened', '')
+    if 'not_detected' in c:
+        det = det or "— (not detected)"
+        note = "NOT DETECTED, on purpose: " + c['not_detected']
+    out.append(f"| {sid} | {c['breaks']} | {c['what'].replace('|', chr(92)+'|')} | {det} | {c['first_run']} | {note} |")
 seed_block = "\n".join(out)
 
 p = os.path.join(V, "DESIGN.md")
